@@ -36,6 +36,9 @@ EMB = {
     'nondyadic': lambda i, j: complex(0.1 + 0.7 * i, -0.3 + 1.1 * j),
     # a small polygon far from the origin: distinct crossings of one probe lie within 1e-5*|point| of each other
     'small_far': lambda i, j: complex(1000.0 + 0.004 * i, 1000.0 + 0.003 * j),
+    # a drawing a thousand million times smaller (the outside points of the enclosure probes stay where they are:
+    # the probe is then ~1e9 times longer than the polygon)
+    'tiny': lambda i, j: complex((0.1 + 0.7 * i) * 1e-9, (-0.3 + 1.1 * j) * 1e-9),
 }
 OUTSIDE = [(-3.7, -2.3), (5.1, 7.3), (-4.9, 6.1), (8.3, -1.7)]
 MARGIN = Fraction(1, 10 ** 9)
@@ -64,15 +67,17 @@ def on_segment(a, b, c):
     return min(a[0], b[0]) <= c[0] <= max(a[0], b[0]) and min(a[1], b[1]) <= c[1] <= max(a[1], b[1])
 
 
-def seg_relation(p, q, a, b):
-    """'cross' (proper), 'none', or 'degenerate' (touching / collinear overlap)"""
+def seg_relation(p, q, a, b, MARGIN=MARGIN, unit=1):
+    """'cross' (proper), 'none', or 'degenerate' (touching / collinear overlap).  unit: the length scale of the
+    drawing (1 for the ordinary embeddings, 1e-9 for the tiny one): "near" means within MARGIN*unit of a line"""
     o1, o2, o3, o4 = orient(p, q, a), orient(p, q, b), orient(a, b, p), orient(a, b, q)
-    # general position with a margin: a point within ~1e-9 of the other segment's line (in floats it
-    # may land on either side) makes the configuration undecidable for any closed-interval test
+    # general position with a margin: a point within ~1e-9 (of the drawing's unit) of the other segment's line (in
+    # floats it may land on either side) makes the configuration undecidable for any closed-interval test
     for o, (u, v, w) in ((o1, (p, q, a)), (o2, (p, q, b)), (o3, (a, b, p)), (o4, (a, b, q))):
-        if o != 0 and abs(o) < MARGIN:
-            lo = (min(u[0], v[0]) - MARGIN, min(u[1], v[1]) - MARGIN)
-            hi = (max(u[0], v[0]) + MARGIN, max(u[1], v[1]) + MARGIN)
+        ln = max(abs(u[0] - v[0]), abs(u[1] - v[1])) if unit != 1 else 1     # |o| = length of uv x distance of w from its line
+        if o != 0 and abs(o) < MARGIN * unit * ln:
+            lo = (min(u[0], v[0]) - MARGIN * unit, min(u[1], v[1]) - MARGIN * unit)
+            hi = (max(u[0], v[0]) + MARGIN * unit, max(u[1], v[1]) + MARGIN * unit)
             if lo[0] <= w[0] <= hi[0] and lo[1] <= w[1] <= hi[1]:
                 return 'degenerate'
     if o1 == 0 and o2 == 0:
@@ -88,7 +93,7 @@ def seg_relation(p, q, a, b):
     return 'none'
 
 
-def retraced(vq):
+def retraced(vq, MARGIN=MARGIN):
     n = len(vq)
     edges = [(vq[i], vq[(i + 1) % n]) for i in range(n)]
     for i in range(n):
@@ -118,6 +123,8 @@ def check_polygon(idx, emb, acc, only=None):
     p_rep = Path(*([Line(verts[i], verts[(i + 1) % n]) for i in range(n)] + [Line(verts[0], verts[0])]))
     exact = shoelace(vq)
     scale2 = 16.0 if emb != 'small_far' else 1.0     # area tolerance 1e-12*scale2 (coordinates ~1e3: eps*|p|*size)
+    if emb == 'tiny':
+        scale2 = 16.0e-18
     base = {'what': 'polygon', 'idx': list(idx), 'emb': emb}
     shape = 'zero_area' if exact == 0 else ('ccw' if exact > 0 else 'cw')
     sig0 = {'n': n, 'shape': shape}
@@ -128,7 +135,9 @@ def check_polygon(idx, emb, acc, only=None):
             acc.violation('area_wrong', sig0, dict(base, q='area'), observed=r, expected=float(exact))
         else:
             a = float(r[1])
-            for tname, fn, want in (('zero_length_closer', lambda: p_rep.area(), a),
+            for tname, fn, want in ((('zero_length_closer', lambda: p_rep.area(), a), ('reversed', lambda: p.reversed().area(), -a),
+                                     ('scaled_uniform', lambda: p.scaled(3.0).area(), a * 9.0)) if emb == 'tiny' else ()) or \
+                                   (('zero_length_closer', lambda: p_rep.area(), a),
                                     ('reversed', lambda: p.reversed().area(), -a),
                                     ('translated', lambda: p.translated(3.25 - 1.5j).area(), a),
                                     ('scaled', lambda: p.scaled(2.0, 0.5).area(), a * 1.0),
@@ -151,7 +160,7 @@ def check_polygon(idx, emb, acc, only=None):
                     acc.violation('area_transform', dict(sig0, transform=tname), dict(base, q=tname), observed=rr, expected=want)
     if only not in (None, 'encloses'):
         return
-    if retraced(vq):
+    if retraced(vq, MARGIN if emb != 'tiny' else Fraction(1, 10 ** 27)):
         acc.filt('retraced_edge_polygon_enclosure_skipped')
         return
     edges = [(vq[i], vq[(i + 1) % n]) for i in range(n)]
@@ -160,7 +169,7 @@ def check_polygon(idx, emb, acc, only=None):
         for oi, o in enumerate(OUTSIDE):
             opt = complex(*o)
             pq, oq = Q(pt), Q(opt)
-            rel = [seg_relation(pq, oq, a, b) for a, b in edges]
+            rel = [seg_relation(pq, oq, a, b, MARGIN, 1 if emb != 'tiny' else Fraction(1, 10 ** 9)) for a, b in edges]
             if 'degenerate' in rel:
                 acc.filt('probe_not_in_general_position')
                 continue
@@ -289,23 +298,27 @@ def check_curved(name, acc):
             acc.violation('area_transform', {'n': len(segs), 'shape': 'curved', 'transform': tname}, dict(case, transform=tname), observed=rr, expected=want)
 
 
-def check_curved_enclosure(name, acc, only=None):
+def check_curved_enclosure(name, acc, only=None, scale=1.0):
     """path_encloses_pt on closed Bezier paths; the crossing parity of the probe is decided exactly
     per segment (mc/isect.exact_line_bezier_count); probes include directions parallel to a
     quadratic's axis a = P0 - 2 P1 + P2 (where the quadratic coefficient of the line equation vanishes)"""
     from mc import isect
     spec = dict(CURVED)[name]
     segs = mk_curved(spec)
+    if scale != 1.0:
+        segs = [type(s_)(*[complex(q) * scale for q in s_.bpoints()]) for s_ in segs]
+        for i_ in range(len(segs)):
+            segs[i_].start = segs[i_ - 1].end
     p = AB.derive_path(Path(*segs))
     xs = [complex(q).real for s_ in segs for q in s_.bpoints()]
     ys = [complex(q).imag for s_ in segs for q in s_.bpoints()]
     x0, x1, y0, y1 = min(xs), max(xs), min(ys), max(ys)
     pts = [complex(x0 + (x1 - x0) * (i + 0.37) / 4, y0 + (y1 - y0) * (j + 0.41) / 4) for i in range(4) for j in range(4)]
     probes = []
-    far = max(x1 - x0, y1 - y0) * 7 + 13
+    far = max(x1 - x0, y1 - y0) * 7 + 13 * scale
     for pt in pts:
         for o in OUTSIDE:
-            probes.append((pt, complex(o[0] * 3 + x0, o[1] * 3 + y0)))
+            probes.append((pt, complex(o[0] * 3 * scale + x0, o[1] * 3 * scale + y0)))
         for s_ in segs:
             b = list(s_.bpoints())
             if len(b) == 3:
@@ -319,6 +332,8 @@ def check_curved_enclosure(name, acc, only=None):
                     probes.append((pt, pt + far * a / abs(a)))
     for pt, opt in probes:
         case = {'what': 'curved_encloses', 'name': name, 'pt': core.jz(pt), 'opt': core.jz(opt)}
+        if scale != 1.0:
+            case['scale'] = scale
         if only and case != only:
             continue
         counts = [isect.exact_line_bezier_count(list(s_.bpoints()), pt, opt) for s_ in segs]
@@ -326,7 +341,7 @@ def check_curved_enclosure(name, acc, only=None):
             acc.filt('curved_probe_not_in_general_position')
             continue
         # the far end must really be outside: its own probe to a very far generic point crosses evenly
-        far2 = complex(1e4 + 17.3, -2e4 + 5.1)
+        far2 = complex(1e4 + 17.3, -2e4 + 5.1) * scale
         c2 = [isect.exact_line_bezier_count(list(s_.bpoints()), opt, far2) for s_ in segs]
         if any(c is None for c in c2) or sum(c2) % 2 == 1:
             acc.filt('curved_probe_far_end_not_outside')
@@ -411,7 +426,7 @@ def check_rounded_rect(r, chord, sweep_dir, acc):
 
 
 def tier_params(tier, seed):
-    return {'k': 4 if tier == 'quick' else 5, 'embs': ['int', 'nondyadic', 'small_far']}
+    return {'k': 4 if tier == 'quick' else 5, 'embs': ['int', 'nondyadic', 'small_far', 'tiny']}
 
 
 NSH = 48
@@ -448,6 +463,8 @@ def run_shard(desc, tier, seed):
         for name, _ in CURVED:
             check_curved(name, acc)
             check_curved_enclosure(name, acc)
+            for sc_ in (1e-9, 1e6):
+                check_curved_enclosure(name, acc, scale=sc_)
         for rx, ry, rot in ELLIPSES:
             for sw in (0, 1):
                 check_ellipse(rx, ry, rot, sw, acc)
@@ -482,7 +499,7 @@ def replay(case):
     elif w == 'containment':
         check_containment(tuple(case['outer']), tuple(case['inner']), case['emb'], case['factor'], complex(*case['shift']), acc)
     elif w == 'curved_encloses':
-        check_curved_enclosure(case['name'], acc, only=case)
+        check_curved_enclosure(case['name'], acc, only=case, scale=case.get('scale', 1.0))
     elif w == 'curved':
         check_curved(case['name'], acc)
     elif w == 'rounded_rect':
